@@ -1,0 +1,29 @@
+//go:build verif
+
+package rvole_bbot
+
+// Contracts for the deductive checker in /verif (comment-only; compiled only under the verif tag).
+
+// Bob's OT choice bits beta (hence his multiplicative share b = <beta, g>) are exactly the xi/8 bytes read IN FULL from
+// Bob's own reader at its entry state: every byte comes from the reader (a short read leaves no constant tail).
+//@ func (*Bob).Round2
+//@   property C07
+//@   uses reader
+//@   ensures err == nil ==> bytesEq(beta, squeeze(old(shk(bob.prng)), bob.xi/8)) && len(beta) == bob.xi/8
+//@   ensures err == nil ==> bob.beta == res(bob.receiver.Round2(r1Out.OtR1, beta), 1).Choices
+//@   ensures bob.prng == old(bob.prng)
+
+// Alice's rho masking scalars aHat are rho separate draws from Alice's own reader, at non-decreasing positions (each
+// draw starts where the previous one ended).
+//@ func (*Alice).Round3
+//@   property C07
+//@   uses reader
+//@   ghostvar sa map[int]V
+//@   ensures err == nil ==> forall k int :: 0 <= k && k < alice.rho ==> drawn(box(aHat[k]), sa[k]) && streamOf(sa[k]) == streamOf(old(shk(alice.prng))) && rpos(old(shk(alice.prng))) <= rpos(sa[k])
+//@   ensures err == nil ==> forall k, m int :: 0 <= k && k < m && m < alice.rho ==> rpos(sa[k]) <= rpos(sa[m])
+//@   ensures alice.prng == old(alice.prng)
+//@   loop range(alice.rho)
+//@     invariant alice.prng == old(alice.prng) && streamOf(shk(alice.prng)) == streamOf(old(shk(alice.prng))) && rpos(old(shk(alice.prng))) <= rpos(shk(alice.prng)) && len(aHat) == alice.rho
+//@     invariant forall k int :: 0 <= k && k < $i ==> drawn(box(aHat[k]), sa[k]) && streamOf(sa[k]) == streamOf(old(shk(alice.prng))) && rpos(old(shk(alice.prng))) <= rpos(sa[k]) && rpos(sa[k]) <= rpos(shk(alice.prng))
+//@     invariant forall k, m int :: 0 <= k && k < m && m < $i ==> rpos(sa[k]) <= rpos(sa[m])
+//@   ghostset before "aHat[i], err = alice.suite.field.Random(alice.prng)": sa[$i] = shk(alice.prng)
